@@ -128,6 +128,9 @@ def run(ctx):
     tie = chain_root_tie(ctx, S, sdu, child)
     ctx.ob('C12.r4', S.name, 'child chain root is compared with the proven parent before the fast path', tie, at=child[0][1],
            detail=None if tie else 'nothing binds the child\'s parent_chain_root (hence its total difficulty) to the proven parent header')
+    # reviewed reference of the checker functions' decision structure (engine/census.py)
+    from rules import census_fns
+    census_fns.run(ctx, 'C12')
 
 
 def base_locals(du, operand):
